@@ -203,7 +203,15 @@ func vfEditStep(op int) {
 	e := *s // expected post-state
 	switch op {
 	case 0: // newObject: reuses the free-list head before growing the pool
+		// whatever occupied a slot before it was freed had a name: freed slots carry arbitrary name bytes
+		for i := 0; i < k; i++ {
+			o := tree.objPool[i]
+			if o.opcode == pOpIntFreedObject {
+				o.name = [amlNameLen]byte{zzverif.U8("oldname"), zzverif.U8("oldname"), zzverif.U8("oldname"), zzverif.U8("oldname")}
+			}
+		}
 		obj := tree.newObject(pOpDevice, 0)
+		zzverif.Assert(obj.name == [amlNameLen]byte{}, "a new object carries no name: it is not found under the name of the freed object whose slot it reuses")
 		if s.head != vfInv {
 			zzverif.Reach("reused")
 			zzverif.Assert(obj.index == s.head, "freed slots are reused before the pool grows")
